@@ -38,8 +38,10 @@ def plan(tier, seed):
     specs += shards("noisy", 3000 if q else 100000, 500 if q else 5000, seed)
     specs += shards("docs", 1000 if q else 50000, 250 if q else 2500, seed)
     specs += shards("faulted", 1500 if q else 50000, 300 if q else 2500, seed)
+    specs += shards("splice", 3000 if q else 150000, 500 if q else 5000, seed)
     specs += shards("corpus", 1, 1, seed, mutations=not q)
     specs += shards("f1", 1, 1, seed)
+    specs.append({"family": "w0", "seed": seed, "n": 1})
     for fam in workloads.SCALING_FAMILIES:
         specs.append({"family": "scaling", "name": fam, "N": 250 if q else 2000, "seed": seed, "n": 1})
     if not q:
@@ -104,10 +106,13 @@ def check_text(text, M, case, idx=0, full=True):
 def run_shard(spec, M):
     fam = spec["family"]
     seed = spec["seed"]
-    if fam in ("hostile", "structured", "noisy", "docs", "faulted"):
+    if fam in ("hostile", "structured", "noisy", "docs", "faulted", "splice"):
+        texts = [g["text"] for g in corpus.good() + corpus.bad()] if fam == "splice" else None
         for i in range(spec["start"], spec["start"] + spec["n"]):
             r = rng(seed, ID, fam, i)
-            if fam == "hostile":
+            if fam == "splice":
+                text = workloads.spliced(r, texts)
+            elif fam == "hostile":
                 text = workloads.hostile(r)
             elif fam == "structured":
                 text = workloads.structured_hostile(r)
@@ -123,6 +128,9 @@ def run_shard(spec, M):
             check_text(text, M, case, i)
             if i % 997 == 0:
                 M.sample({"family": fam, "text": short(text, 300)})
+    elif fam == "w0":
+        from .base import run_repo_tests_under_monitors
+        run_repo_tests_under_monitors(M, G_DECIDING)
     elif fam == "corpus":
         k = 0
         for g in corpus.good() + corpus.bad():
